@@ -93,6 +93,10 @@ class RefServer:
         return "v=" + base64.b64encode(self.server_signature).decode()
 
 
+# salts: 1 / 16 / 64 bytes, and salts whose base64 text starts with the attribute letters of the server-first
+# message ("s", "r", "i": bytes 0xB0.., 0xAC.., 0x88..) or repeats them ("ssss", "iiii"), with and without '=' padding
+SALTS = [b"s", bytes(range(16)), bytes(range(64)), bytes([0xB2, 0xCB, 0x2C, 0xB2, 0xCB, 0x2C, 0x01]), bytes([0xAE, 0xBA, 0xEB, 0x10, 0x20]),
+         bytes([0x8A, 0x28, 0xA2, 0x8A, 0x28, 0xA2]), bytes([0xB2, 0xCB])]
 USERNAMES = ["user", "a,b", "a=b", "=,=", ",", "=2C", "üser,=", "x" * 40, "a=3Db,"]
 PASSWORDS = ["pw", "pä55=,"]
 TAMPERS = ["none", "nonce_not_prefixed", "nonce_cnonce_inside", "nonce_truncated", "nonce_unrelated", "sig_bitflip_first", "sig_bitflip_last",
@@ -155,7 +159,7 @@ def find_nonce_start(mech, user, pw, salt, iterations, shape):
 
 def w1_exchange(src):
     mech = list(HASHES)[src.choice("mechanism", 2)]
-    salt = [b"s", bytes(range(16)), bytes(range(64))][src.choice("salt", 3)]
+    salt = SALTS[src.choice("salt", len(SALTS))]
     iterations = [1, 4096, 20000][src.choice("iterations", 3)]
     user = USERNAMES[src.choice("username", len(USERNAMES))]
     pw = PASSWORDS[src.choice("password", len(PASSWORDS))]
@@ -349,6 +353,92 @@ def w2_replay(src):
 
 
 # ------------------------------------------------------------------------------------------
+# W3: the exchange as the connection drives it (AIOKafkaConnection._do_sasl_handshake): whatever the
+# broker answers to the client-final message, the login completes only after the server signature verified
+
+
+FINALS = ["honest", "empty_token", "none_token", "wrong_signature", "truncated_signature", "error_attribute", "garbage"]
+
+
+def w3_connection_handshake(src):
+    import asyncio
+    import types
+    from aiokafka.conn import AIOKafkaConnection
+    import aiokafka.errors as E
+    from env import vloop
+    mech = list(HASHES)[src.choice("mechanism", 2)]
+    hv = src.choice("sasl_handshake_version", 2)   # 0: raw tokens after the handshake, 1: SaslAuthenticate requests
+    final = FINALS[src.choice("server_final", len(FINALS))]
+    user, pw = "user", "pw"
+    srv = RefServer(mech, {user: pw}, bytes(range(16)), 4096)
+    out = {"steps": []}
+
+    async def main(loop):
+        conn = AIOKafkaConnection("fake", 9092, request_timeout_ms=1000, security_protocol="SASL_PLAINTEXT", sasl_mechanism=mech,
+                                  sasl_plain_username=user, sasl_plain_password=pw)
+
+        def answer(token):
+            msg = bytes(token).decode("utf-8")
+            if not out["steps"]:
+                out["steps"].append("first")
+                return srv.first(msg).encode("utf-8")
+            out["steps"].append("final")
+            good = srv.final(msg)
+            if final == "honest":
+                return good.encode("utf-8")
+            if final == "empty_token":
+                return b""
+            if final == "none_token":
+                return None
+            if final == "wrong_signature":
+                sig = bytearray(srv.server_signature)
+                sig[0] ^= 1
+                return ("v=" + base64.b64encode(bytes(sig)).decode()).encode()
+            if final == "truncated_signature":
+                return ("v=" + base64.b64encode(srv.server_signature[:-1]).decode()).encode()
+            if final == "error_attribute":
+                return b"e=invalid-proof"
+            return b"x"
+
+        async def fake_send(request, expect_response=True):
+            name = type(request).__name__
+            if name.startswith("SaslHandShake"):
+                return types.SimpleNamespace(error_code=0, enabled_mechanisms=[mech], API_VERSION=hv)
+            if name.startswith("SaslAuthenticate"):
+                tok = request.prepare({36: (0, 1)}).sasl_auth_bytes  # the bytes the request would carry on the wire
+                return types.SimpleNamespace(error_code=0, error_message=None, sasl_auth_bytes=answer(tok), session_lifetime_ms=0)
+            raise AssertionError("unexpected request " + name)
+
+        async def fake_token(payload, expect_response):
+            return answer(payload)
+
+        conn.send = fake_send
+        conn._send_sasl_token = fake_token
+        conn.close = lambda *a, **k: out.setdefault("closed", True)
+        try:
+            await asyncio.wait_for(conn._do_sasl_handshake(), 30)
+            out["completed"] = True
+        except asyncio.TimeoutError:
+            out["error"] = "hangs"
+        except ServerReject as e:
+            out["server_reject"] = str(e)
+        except (E.KafkaError, ValueError, KeyError, TypeError, AttributeError, UnicodeDecodeError, IndexError) as e:
+            out["error"] = type(e).__name__
+
+    vloop.run(main, max_vtime=100)
+    info = dict(mechanism=mech, handshake_version=hv, server_final=final, observed={k: v for k, v in out.items()})
+    src.note(info)
+    src.check("server_reject" not in out, "a server that knows the password rejects the client's message: " + str(out.get("server_reject")), **info)
+    if final == "honest":
+        ok = bool(out.get("completed"))
+        if src.twin:
+            ok = not ok
+        src.check(ok, "honest SCRAM login through the connection did not complete: " + str(out.get("error")), **info)
+    else:
+        src.check(not out.get("completed"), "the connection completed the SASL login although the server's final message did not carry the expected signature", **info)
+
+
+# ------------------------------------------------------------------------------------------
 # U2: the proof is the byte-wise XOR, whatever the bytes are
 
 
@@ -393,6 +483,13 @@ def harnesses(tier):
                       shape="S", symbolic_vars="finite-domain choices: mechanism, username, password, iterations, number of earlier logins",
                       bounds={"logins": "2..3 in one process"},
                       stubs=["uuid inside aiokafka.conn replaced by a counter-based generator (fresh value per call)"],
+                      note="concrete witness runs (hash functions cannot be encoded)", twin_max_paths=50))
+    hs.append(Harness(name="W3_connection_handshake", fn=w3_connection_handshake,
+                      functions=[CONN.AIOKafkaConnection._do_sasl_handshake, CONN.BaseSaslAuthenticator._step,
+                                 ScramAuthenticator.authenticator_scram],
+                      shape="S", symbolic_vars="finite-domain choices: mechanism, SaslHandshake v0 (raw tokens) or v1 (SaslAuthenticate), what the broker answers to the client-final message",
+                      bounds={"server_final": FINALS},
+                      stubs=["AIOKafkaConnection.send / _send_sasl_token answered by the reference server; virtual-time loop (executor inline)"],
                       note="concrete witness runs (hash functions cannot be encoded)", twin_max_paths=50))
     hs.append(Harness(name="U2_xor_bytes_boundaries", fn=u2_xor_bytes, functions=[ScramAuthenticator._xor_bytes], shape="U",
                       symbolic_vars="finite-domain choices: length (1, 2, 32, 64), byte patterns giving zero / leading-zero / trailing-zero / all-ones results",
